@@ -292,7 +292,7 @@ class Plane:
         if self.size == 1:
             t = np.linalg.lstsq(ptt_vector.T, plane.opd.ravel(), rcond=None)[0]
             opd_tilt = np.einsum('ij,i->j', ptt_vector[1:3], t[1:3])
-            plane.opd -= opd_tilt.reshape(plane.opd.shape)
+            plane.opd = plane.opd - opd_tilt.reshape(plane.opd.shape)
             plane.tilt.append(Tilt(x=t[1], y=t[2]))
 
         else:
